@@ -88,6 +88,24 @@ func init() {
 			},
 			Final: finalInvariants}
 	})
+	// a sample that merges into a stored plane against a region query reading that plane
+	registerBlock("c09-mergequad-region", func() *Block {
+		return &Block{Cfg: allMods,
+			Setup: func(x *Ctx) { two(x); x.C["a"].SendMsg(quadMsg(x, 1)); x.W.Run() },
+			Fire: func(x *Ctx) {
+				x.C["a"].SendMsg(&dagazpb.DagazQuadSample{Type: dagazpb.MsgType_MSG_TYPE_DAGAZ_QUAD_SAMPLE, Timestamp: x.W.NextTS(), Samples: []*dagazpb.Quad{{Center: pt(1.1, 0.1, 1.1), Extents: pt(0.75, 0, 0.75)}}})
+				c := x.C["b"]
+				rid := c.NextReqID()
+				x.Vars["rid"] = rid
+				c.SendMsg(&dagazpb.DagazGetRegionRequest{Type: dagazpb.MsgType_MSG_TYPE_DAGAZ_GET_REGION_REQUEST, Timestamp: x.W.NextTS(), RequestId: rid, Min: pt(-100, 0, -100), Max: pt(100, 0, 100)})
+			},
+			Check: func(x *Ctx) {
+				if n := regionCount(x, "b"); n != 1 {
+					x.fail("corruption", "groundplane-merge-lost", "a sample overlapping the stored plane must merge into it; a region query returns %d planes", n)
+				}
+			},
+			Final: finalInvariants}
+	})
 	// two first joins of a fresh session: creation of the modules' shared state
 	registerBlock("c09-first-joins", func() *Block {
 		return &Block{Cfg: allMods,
@@ -159,7 +177,7 @@ func init() {
 			bRace, bPlain, budget = 2, 2, 2400
 		}
 		var jobs []check.Job
-		core := []string{"c07-join-vs-lastleave-close", "c07-lastleave-vs-lastleave", "c07-create-vs-create", "c10-eadd-eadd", "c10-join-join", "c10-tadd-same", "c10-asset-asset", "c09-quad-quad", "c09-quad-region", "c09-first-joins", "c06-lastleave-entity-vs-join"}
+		core := []string{"c07-join-vs-lastleave-close", "c07-lastleave-vs-lastleave", "c07-create-vs-create", "c10-eadd-eadd", "c10-join-join", "c10-tadd-same", "c10-asset-asset", "c09-quad-quad", "c09-quad-region", "c09-mergequad-region", "c09-first-joins", "c07-lastleave-vs-create", "c06-lastleave-entity-vs-join"}
 		for _, b := range core {
 			pb := bPlain + 1
 			if tier != "thorough" && (b == "c07-create-vs-create" || b == "c07-lastleave-vs-lastleave") {
